@@ -17,9 +17,7 @@ let mkfmt ty vs bits sh dl =
 let variant = if Array.length Sys.argv > 1 then Sys.argv.(1) else "pp"   (* "pp" | "fp" | "pf" | "ff": B/BL/BLX packer, B<c> packer; p = pinned, f = fixed *)
 let fb = String.length variant = 2 && variant.[0] = 'f'
 let fc = String.length variant = 2 && variant.[1] = 'f'
-(* argv[4] = "c": the 8-byte UnsignedOffset path refuses a negative displacement (fixes/C17-unsigned64-negative.patch); "u": pinned *)
-let un_checked = Array.length Sys.argv > 4 && Sys.argv.(4) = "c"
-let write_offset f old off = Codec.write_offset_top fb fc un_checked f old off
+let write_offset f old off = Codec.write_offset_var fb fc f old off
 (* argv[2] = "c": the (Mem, Imm) form of the x86 ALU group refuses a qword destination with a non-int32 immediate
    (fixes/C17-x86-arith-mem-imm64.patch); "u": the pinned code without the test *)
 let mem_checked = Array.length Sys.argv > 2 && Sys.argv.(2) = "c"
